@@ -317,6 +317,10 @@ def drive(pid, sname, case, sim, ls, limit, is_max, out: Outcome, tr: Trace) -> 
                 if len(yielded) != limit:
                     vio(f"silent-truncation/mode=cl/op={kind}/wrap={wrap}", f"end of stream signalled after {len(yielded)} of {limit} declared bytes")
                     break
+            elif kind in ("read_all", "readlines", "exhaust") and len(data) > limit and sim.pos >= limit:
+                # an unbounded read claims "everything up to the end"; the body is longer than the maximum and no error was raised
+                vio("unbounded-read-silently-truncated-at-maximum", f"{kind}() returned the first {len(yielded)} bytes of a {len(data)}-byte body (maximum {limit}) without RequestEntityTooLarge (wrap {wrap})")
+                # (recorded finding L2) keep checking the rest of the history
             elif sim.pos < limit and bytes(yielded) != data:
                 vio(f"silent-truncation/mode=max/op={kind}/wrap={wrap}", f"end of stream signalled after {len(yielded)} of {len(data)} bytes (maximum {limit})")
                 break
